@@ -8,7 +8,9 @@ import (
 	"encoding/base64"
 	"encoding/xml"
 	"fmt"
+	"github.com/crewjam/saml/samlsp"
 	"net/http"
+	"net/http/httptest"
 	"net/url"
 	"regexp"
 	"strings"
@@ -43,7 +45,9 @@ func init() {
 
 var c13Keys = []string{"sp_rsa1024", "sp_rsa2048", "sp_rsa3072", "sp_rsa4096", "sp_p256", "sp_p384", "sp_p521"}
 var c13Methods = append(append([]string{}, so.RSAMethods...), so.ECMethods...)
-var c13BadMethods = []string{"http://www.w3.org/2000/09/xmldsig#dsa-sha1", "urn:unknown:method", "rsa-sha256", "http://www.w3.org/2000/09/xmldsig#hmac-sha1", " "}
+var c13BadMethods = []string{"http://www.w3.org/2000/09/xmldsig#dsa-sha1", "urn:unknown:method", "rsa-sha256", "http://www.w3.org/2000/09/xmldsig#hmac-sha1", " ",
+	// near misses of the supported URIs: not the URI, hence unknown
+	so.RSASHA256 + "\n", "\t" + so.RSASHA256, so.RSASHA1 + " ", " " + so.ECSHA256, so.ECSHA384 + "\r\n", strings.ToUpper(so.RSASHA512), so.RSASHA256 + "#", so.ECSHA512[:len(so.ECSHA512)-1], so.RSASHA384 + "/"}
 
 func methodIsRSA(m string) bool { return strings.Contains(m, "#rsa-") }
 
@@ -85,7 +89,7 @@ func runC13(c *core.Ctx) {
 	reps := c.Pick(5, 60)
 	for _, kn := range c13Keys {
 		for _, m := range append(append([]string{}, c13Methods...), c13BadMethods...) {
-			for kind := 0; kind < 7; kind++ {
+			for kind := 0; kind < 8; kind++ {
 				for r := 0; r < reps; r++ {
 					if !mine() {
 						continue
@@ -99,6 +103,12 @@ func runC13(c *core.Ctx) {
 
 func c13Run(c *core.Ctx, keyName, method string, kind int) {
 	kp := fx.K(keyName)
+	if kind == 7 && !kp.IsRSA() && keyName != "sp_p256" {
+		// observation, outside C13: the middleware's cookie codecs sign with ES256 whatever the curve, so a P-384/P-521 key
+		// cannot start a flow at all ("key is invalid" from the tracking cookie); nothing is emitted, nothing to verify
+		c.Count("middleware_not_usable_with_p384_p521_keys(observation)")
+		return
+	}
 	relay := c12Str(c)
 	ep := c12Endpoints[c.Rng.Intn(len(c12Endpoints))]
 	k := c12Cfg{sso: ep, slo: strings.Replace(ep, "/sso", "/slo", 1)}
@@ -129,7 +139,7 @@ func c13Run(c *core.Ctx, keyName, method string, kind int) {
 		c.Count("sp_configured_with_intermediates")
 	}
 	sp.IDPMetadata.IDPSSODescriptors[0].ArtifactResolutionServices = []saml.Endpoint{{Binding: saml.SOAPBinding, Location: so.IDPArt}}
-	kinds := []string{"authn-redirect", "authn-post", "logoutreq-redirect", "logoutreq-post", "logoutresp-redirect", "logoutresp-post", "artifact-resolve"}
+	kinds := []string{"authn-redirect", "authn-post", "logoutreq-redirect", "logoutreq-post", "logoutresp-redirect", "logoutresp-post", "artifact-resolve", "middleware-start-flow"}
 	desc := fmt.Sprintf("key=%s method=%s kind=%s relay=%q endpoint=%q entityID=%q authnCtx=%v forceAuthn=%v format=%q", keyName, shortAlg(method), kinds[kind], truncate(relay, 50), ep, k.entityID, c13Ctx(k.authnCtx), k.forceAuthn != nil, k.format)
 	c.Journal("C13 " + desc)
 	matching := (methodIsRSA(method) && kp.IsRSA() || strings.Contains(method, "#ecdsa-") && !kp.IsRSA())
@@ -167,8 +177,54 @@ func c13Run(c *core.Ctx, keyName, method string, kind int) {
 			if resolveBody == nil {
 				err = perr
 			}
+		case 7:
+			// the samlsp middleware starting a login with SignRequest on: it picks the binding itself from what the IdP offers
+			md := sp.IDPMetadata
+			offered := []string{"redirect-only", "post-only", "both"}[c.Rng.Intn(3)]
+			switch offered {
+			case "redirect-only":
+				md.IDPSSODescriptors[0].SingleSignOnServices = []saml.Endpoint{{Binding: saml.HTTPRedirectBinding, Location: ep}}
+			case "post-only":
+				md.IDPSSODescriptors[0].SingleSignOnServices = []saml.Endpoint{{Binding: saml.HTTPPostBinding, Location: ep}}
+			}
+			m, merr := samlsp.New(samlsp.Options{URL: mustURL("https://sp.example.com"), Key: kp.Key, Certificate: kp.Cert, IDPMetadata: md, SignRequest: true, EntityID: k.entityID})
+			if merr != nil {
+				err = merr
+				break
+			}
+			m.ServiceProvider.SignatureMethod = method
+			m.ServiceProvider.RequestedAuthnContext, m.ServiceProvider.ForceAuthn = k.authnCtx, k.forceAuthn
+			pref := c.Rng.Intn(3) // 0: leave the choice to the middleware; otherwise ask for a binding the IdP offers
+			if pref == 1 && offered != "post-only" {
+				m.Binding = saml.HTTPRedirectBinding
+			}
+			if pref == 2 && offered != "redirect-only" {
+				m.Binding = saml.HTTPPostBinding
+			}
+			desc += fmt.Sprintf(" idp-offers=%s middleware.Binding=%q", offered, shortAlg(m.Binding))
+			rec := httptest.NewRecorder()
+			m.HandleStartAuthFlow(rec, httptest.NewRequest("GET", "https://sp.example.com/protected?x=1", nil))
+			sp = &m.ServiceProvider
+			switch rec.Code {
+			case http.StatusFound:
+				u, err = url.Parse(rec.Header().Get("Location"))
+				if err == nil {
+					relay = u.Query().Get("RelayState")
+				}
+			case http.StatusOK:
+				page = rec.Body.Bytes()
+			default:
+				err = fmt.Errorf("HTTP %d: %s", rec.Code, truncate(rec.Body.String(), 100))
+			}
 		}
 	})
+	eff := kind // how the emitted message is to be read: 0 = redirect with detached signature, otherwise enveloped
+	if kind == 7 {
+		eff = 1
+		if u != nil {
+			eff = 0
+		}
+	}
 	c.Eval()
 	replay := map[string]any{"case": desc}
 	if u != nil {
@@ -221,7 +277,7 @@ func c13Run(c *core.Ctx, keyName, method string, kind int) {
 	}
 	var msgEl *etree.Element
 	switch {
-	case kind == 0:
+	case eff == 0:
 		full := u.String()
 		i := strings.IndexByte(full, '?')
 		rawq := full[i+1:]
